@@ -9,7 +9,7 @@ set_option linter.unusedSectionVars false
 namespace C12
 open Py Context
 
-variable {K V P : Type} [DecidableEq K]
+variable {K V P : Type} [DecidableEq K] [DecidableEq P]
 
 /-! ### extra layering -/
 
@@ -250,7 +250,37 @@ theorem derived_logger_spec (papply : P → Assoc K V → Assoc K V) (s : State 
   refine ⟨fun kw => ⟨bindExtra o.extra kw, by simp [step, hl], ?_⟩, fun p => ?_, fun f => by simp [step, hl]⟩
   · intro k
     simp [bindExtra, Gen.bindOperands, List.foldl, srcVal, get?_merge]
-  · simp [step, hl, patchList, Gen.patchOperands, List.foldl]
+  · simp [step, hl, patchList, patchListWith, Gen.patchDedup, Gen.patchOperands, List.foldl]
+
+/-- `patch_appends_always`: `patch` appends its argument to the chain even when an equal patcher is
+already attached – `patch(f).patch(g).patch(f)` runs f, g, f.  (Rests on the regenerated
+`Gen.patchDedup`; fails to build when `patch` skips patchers that are already in the list.) -/
+theorem patch_appends_always (old : List P) (p : P) : patchList old p = old ++ [p] := by
+  simp [patchList, patchListWith, Gen.patchDedup, Gen.patchOperands, List.foldl]
+
+/-- refutation of the de-duplicating shape, for EVERY chain that already contains the patcher: a
+`patch` that skips an attached patcher cannot meet "functions are called in the order they are added"
+– the chain stays one element short. -/
+theorem patch_dedup_refuted (old : List P) (p : P) (h : p ∈ old) :
+    patchListWith true old p ≠ old ++ [p] := by
+  have hc : old.contains p = true := by simpa using h
+  unfold patchListWith
+  rw [hc]
+  intro e
+  have := congrArg List.length e
+  simp at this
+
+/-- and the logging call through such a chain runs fewer patchers than were attached: with
+`patch(f).patch(g).patch(f)` the de-duplicating variant calls f, g – the last writer of a key f and g
+both set is then g instead of f -/
+theorem patch_dedup_witness :
+    let f : Nat × Nat × Nat := (1, 0, 10)     -- patcher 1 sets key 0 to 10
+    let g : Nat × Nat × Nat := (2, 0, 20)     -- patcher 2 sets key 0 to 20
+    let apply := fun (p : Nat × Nat × Nat) (x : Assoc Nat Nat) => merge x [(p.2.1, p.2.2)]
+    patchListWith true (patchListWith true (patchListWith true [] f) g) f = [f, g] ∧
+    get? (applyAll apply [f, g] []) 0 = some 20 ∧
+    get? (applyAll apply (patchList (patchList (patchList [] f) g) f) []) 0 = some 10 := by
+  refine ⟨by decide, by decide, by decide⟩
 
 /-- the root logger has `opt()`'s defaults, no patcher, no bound extra; and by default kwargs are
 captured -/
